@@ -12,9 +12,9 @@ PROPS['C14'] = dict(
     floor=60,
     assumptions=['each instance is used by one thread only (the header promises parallel instances, not a thread-safe instance)'],
     stages=[
-        dict(name='replay', variant='plain', harness='c14_isolation.cpp', quick=800, thorough=16000),
-        dict(name='interfere', variant='plain', harness='c14_isolation.cpp', quick=400, thorough=8000),
-        dict(name='threads', variant='plain', harness='c14_isolation.cpp', quick=120, thorough=2500, jobs=4, budget=120),
+        dict(name='replay', variant='plain', harness='c14_isolation.cpp', quick=2000, thorough=40000),
+        dict(name='interfere', variant='plain', harness='c14_isolation.cpp', quick=2000, thorough=40000),
+        dict(name='threads', variant='plain', harness='c14_isolation.cpp', quick=240, thorough=5000, jobs=4, budget=120),
         dict(name='tsan', variant='tsan', harness='c14_isolation.cpp', quick=24, thorough=600, jobs=4, budget=600),
     ],
 )
